@@ -298,7 +298,7 @@ def _build(events, partial):
     ri = 0
     lo = 0
     for kind, op, obs, a_, b_ in groups:
-        hi = pos[b_] if b_ < n else (len(raw) if not partial else (pos[b_ - 1] + 1 if b_ > 0 else 0))
+        hi = pos[b_ - 1] + 1     # up to the group's last event: what follows belongs to the next operation
         inst = None
         for x in range(a_, b_):
             if ev[x][0] == "instance":
